@@ -1,11 +1,11 @@
 package main
 
 import (
-	"math"
 	"bytes"
 	"encoding/binary"
 	"fmt"
 	"io"
+	"math"
 	"os"
 	"path/filepath"
 	"runtime"
